@@ -302,8 +302,8 @@ fn c12_mutate_ticks_step_wrap_plus_3() {
 
 // HARNESS: c12_mutate_ticks_confirm_any_distance
 // PROPS: C12
-// TIER: quick
-// TIMEOUT: 1200
+// TIER: thorough
+// TIMEOUT: 2400
 // DRIVES: ServerMutateTicks::confirm, TickMessages::confirm
 // BOUNDS: all 64 slots arbitrary and a SYMBOLIC distance anywhere within 2^30 of the last tick; unwind 66
 #[kani::proof]
